@@ -122,6 +122,10 @@ fn main() {
         if let Some(e) = &expect { probe_names.extend(e.split(',').map(|s| s.to_string())); }
         probe_names.extend(["enter", "ctrl-c", "tab", "f7", "z"].iter().map(|s| s.to_string()));
         let mut probes: Vec<Key> = probe_names.iter().filter_map(|n| from_keyname(n)).collect();
+        // the capital of every bound letter is a key of its own (unbound unless named), and so is an unnamed capital
+        let caps: Vec<Key> = probes.iter().filter_map(|k| if let Key::Char(c) = k { if c.is_ascii_lowercase() { Some(Key::Char(c.to_ascii_uppercase())) } else { None } } else { None }).collect();
+        probes.extend(caps);
+        probes.push(Key::Char('Q'));
         probes.push(Key::Char('中'));
         probes.push(Key::CursorPos(1, 2));
         probes.dedup();
